@@ -692,7 +692,9 @@ func (bc *BaseClient) CheckTxExpire(txs []*types.Transaction, height int64, bloc
 // 检测交易数组是否过期，只要有一个过期就认为整个交易组过期
 func isExpire(cfg *types.Chain33Config, txs []*types.Transaction, height int64, blocktime int64) bool {
 	for _, tx := range txs {
-		if height > 0 && blocktime > 0 && tx.IsExpire(cfg, height, blocktime) {
+		// 此处交易组已展开, 组内交易的Header是交易组哈希而非打包形式的交易组编码,
+		// tx.IsExpire会把该哈希当作交易组解码(偶尔能解码成功并得到空交易组), 从而漏判过期, 这里直接判断交易自身
+		if height > 0 && blocktime > 0 && (&types.Transactions{Txs: []*types.Transaction{tx}}).IsExpire(cfg, height, blocktime) {
 			log.Debug("isExpire", "height", height, "blocktime", blocktime, "hash", common.ToHex(tx.Hash()), "Expire", tx.Expire)
 			return true
 		}
